@@ -41,7 +41,7 @@ RULE = ('hist/xstart: a history is 2-5 creates, then 6-30 chunks of 1-3 ops [new
         'case is non-trivial when a create landed on recycled storage (its '
         'address range intersects a range that a dropped, 0xFF-scribbled '
         'object occupied) AND the round trip completed with >=1 child write '
-        'and >=1 parent write. contend: P in 2-8 processes x M in 200-2000 '
+        'and >=1 parent write. contend: P in 2-8 processes (quick tier: 2-3 under spawn/forkserver) x M in 200-2000 (quick: 200-800) '
         'increments (value, Structure field, or array indices) while holding '
         'the lock in one of 4 ways, lock in {default RLock, True, ctx.Lock, '
         'ctx.RLock}; non-trivial when >=2 processes made increments. '
@@ -60,6 +60,14 @@ ASSUMPTIONS = [
     'the forkserver and semaphore-tracker helper processes started by an '
     'xstart/contend case are stopped and reaped by the harness at the end of '
     'the case',
+    'a contention run first forces one interleaving (parent holds the lock, '
+    'reads, lets a child attempt a locked increment for 0.5 s, writes read+1, '
+    'releases): this detects a lock that does not exclude other processes '
+    'deterministically; the free-running increments stop at a time budget '
+    'and the expected totals follow the counts the children report',
+    'sensitivity (quick tier, seed 1): 8/8 mutants killed - value-no-memset, '
+    'array-no-memset, wrapper-not-kept, block-too-short, arena-map-private, '
+    'semlock-enter-noop, wrapper-enter-noop, reduce-drops-lock',
 ]
 SHARDS = {'quick': 8, 'thorough': 16}
 
@@ -170,10 +178,10 @@ def rand_hist_case(seed, methods):
     }
 
 
-def rand_contend_case(seed, methods, mmax, budget_s):
+def rand_contend_case(seed, methods, mmax, budget_s, pmax=8):
     import random
     rnd = random.Random(seed)
-    nproc = rnd.choice([2, 3, 4, 4, 6, 8])
+    nproc = rnd.choice([p for p in [2, 3, 4, 4, 6, 8] if p <= pmax])
     return {
         'method': rnd.choice(methods),
         'target': rnd.randrange(len(_CTARGETS)),
@@ -184,6 +192,9 @@ def rand_contend_case(seed, methods, mmax, budget_s):
         # children stop incrementing after this many seconds and report how
         # far they got; the expected totals follow their reports
         'budget_s': budget_s,
+        # how long the parent keeps the lock after the probed child announced
+        # its attempt (forced interleaving)
+        'grace_s': 0.5,
         'length': rnd.randrange(1, 9),
         'procs': [[rnd.randrange(8) for _ in range(rnd.randrange(1, 5))]
                   for _ in range(nproc)],
@@ -223,7 +234,8 @@ def _fresh_elem(fields, r, nfields=None):
 def _build(ctx, method, op):
     """-> (callable creating the object, expected element list, is_array,
     zero_expected: the statement's 'none given' case (whole object zero),
-    kind, tname, lockmode)"""
+    kind, tname, lockmode, partial: an initialiser that leaves some fields
+    of a composite to their default)"""
     from billiard import sharedctypes as sc
     _, kind_i, tidx, lockmode, init_v, init_a = op
     kind = KINDS[kind_i % 4]
@@ -257,14 +269,15 @@ def _build(ctx, method, op):
             args, zero_expected = tuple(vals), not vals
         fn = getattr(sc, kind)
         return ((lambda: fn(targ, *args, **kw)), want, False, zero_expected,
-                kind, tname, lockmode)
+                kind, tname, lockmode, 0 < len(args) < len(fields))
     if init_a[0] == 'n':
         n = init_a[1]
         want = [_fresh_elem(fields, 0, 0) for _ in range(n)]
-        arg, zero_expected = n, True
+        arg, zero_expected, partial = n, True, False
     else:
         raws, alt = init_a[1], init_a[2]
         zero_expected = False
+        partial = False
         if shape == 'prim':
             want = [[T.mkval(fields[0][1], r)] for r in raws]
             arg = [w[0] for w in want]
@@ -280,11 +293,12 @@ def _build(ctx, method, op):
             for r in raws:
                 nf = 1 + r % len(fields) if alt else len(fields)
                 e = _fresh_elem(fields, r, nf)
+                partial = partial or nf < len(fields)
                 want.append(e)
                 arg.append(tuple(e[:nf]))
     fn = getattr(sc, kind)
     return ((lambda: fn(targ, arg, **kw)), want, True, zero_expected,
-            kind, tname, lockmode)
+            kind, tname, lockmode, partial)
 
 
 def _cmp(lv, got):
@@ -298,6 +312,17 @@ def _cmp(lv, got):
     return None
 
 
+def _cmp_obj(lv, sliced=False):
+    """read live object lv through the API and compare with its model; a read
+    that raises (ctypes refusing garbage, e.g. an invalid wchar) is a
+    mismatch, not a harness error"""
+    try:
+        got = T.read_obj(lv.obj, lv.tname, lv.is_array, sliced)
+    except Exception as exc:
+        return 'reading raised %s: %s' % (type(exc).__name__, exc)
+    return _cmp(lv, got)
+
+
 def _describe(lv):
     return '%s(%s%s)' % (lv.kind, lv.tname,
                          '[%d]' % len(lv.vals) if lv.is_array else '')
@@ -308,7 +333,7 @@ def _check_all(live, who, skip=None):
     for k, lv in enumerate(live):
         if lv is skip:
             continue
-        d = _cmp(lv, T.read_obj(lv.obj, lv.tname, lv.is_array))
+        d = _cmp_obj(lv)
         if d:
             return k, '%s #%d %s: %s' % (who, k, _describe(lv), d)
     return None
@@ -458,8 +483,8 @@ def _run_history(case, ctx, method, live, dirty, labels):
             if len(live) >= 12:
                 labels.add('new_skipped_12_live')
                 continue
-            make, want, is_array, zero_expected, kind, tname, lockmode = \
-                _build(ctx, method, op)
+            make, want, is_array, zero_expected, kind, tname, lockmode, \
+                partial = _build(ctx, method, op)
             try:
                 obj = make()
             except Exception as exc:
@@ -473,7 +498,7 @@ def _run_history(case, ctx, method, live, dirty, labels):
             recycled = any(lv.addr < hi and lo < lv.addr + lv.size
                            for lo, hi in dirty)
             where = ' on recycled storage' if recycled else ''
-            d = _cmp(lv, T.read_obj(obj, tname, is_array))
+            d = _cmp_obj(lv)
             if d:
                 if zero_expected:
                     return bad('C15/not-zeroed', 'new %s without initialiser%s:'
@@ -504,10 +529,8 @@ def _run_history(case, ctx, method, live, dirty, labels):
                 labels.add('recycled')
                 if zero_expected and lv.size:
                     labels.add('recycled_zero')
-                elif not zero_expected and any(
-                        T.same(p, v, T.zero(p)) for e in want
-                        for (_, p), v in zip(T.TYPES[tname][2], e)):
-                    labels.add('recycled_partial')
+                elif partial:
+                    labels.add('recycled_partial_init')
             hit = _check_all(live, 'after create', skip=lv)
             if hit:
                 return bad('C15/isolation', hit[1])
@@ -548,7 +571,7 @@ def _run_history(case, ctx, method, live, dirty, labels):
             for j, v in enumerate(vals):
                 lv.vals[start + j][0] = v
             labels.add('slice_write')
-            d = _cmp(lv, T.read_obj(lv.obj, lv.tname, True, sliced=True))
+            d = _cmp_obj(lv, sliced=True)
             if d:
                 return bad('C15/readback', 'slice read of %s: %s' % (
                     _describe(lv), d))
@@ -559,7 +582,7 @@ def _run_history(case, ctx, method, live, dirty, labels):
             if not live:
                 continue
             lv = live.pop(op[1] % len(live))
-            d = _cmp(lv, T.read_obj(lv.obj, lv.tname, lv.is_array))
+            d = _cmp_obj(lv)
             if d:
                 return bad('C15/isolation', 'before drop %s: %s' % (
                     _describe(lv), d))
@@ -577,7 +600,7 @@ def _run_history(case, ctx, method, live, dirty, labels):
 
 
 def _after_write(live, lv):
-    d = _cmp(lv, T.read_obj(lv.obj, lv.tname, lv.is_array))
+    d = _cmp_obj(lv)
     if d:
         return bad('C15/readback', 'after write to %s: %s' % (_describe(lv), d))
     hit = _check_all(live, 'after write to %s, other object' % _describe(lv),
@@ -637,7 +660,11 @@ def _round_trip(case, ctx, method, live, labels, procs):
             if r is None:
                 continue
             i, f, v, whole = r
-            T.write_field(lv.obj, lv.tname, lv.is_array, i, f, v, whole)
+            try:
+                T.write_field(lv.obj, lv.tname, lv.is_array, i, f, v, whole)
+            except Exception as exc:
+                return bad('C15/write-raised', 'parent write to %s raised %s: '
+                           '%s' % (_describe(lv), type(exc).__name__, exc)), False
             lv.vals[i][f] = v
             n_pw += 1
         pc.send('go')
@@ -688,6 +715,20 @@ def _rt_problem(status, payload, method, stage):
 _CTARGETS = [('i', False), ('l', False), ('d', False), ('H', False),
              ('c_longlong', False), ('Point', False),
              ('i', True), ('d', True), ('B', True), ('Point', True)]
+
+
+def _peek(raw, shape, is_array, i):
+    e = raw[i] if is_array else raw
+    return e.x if shape == 'struct' else (e if is_array else e.value)
+
+
+def _poke(raw, shape, is_array, i, v):
+    if shape == 'struct':
+        (raw[i] if is_array else raw).x = v
+    elif is_array:
+        raw[i] = v
+    else:
+        raw.value = v
 
 
 def execute_contend(case):
@@ -757,6 +798,39 @@ def _contend(case, ctx, procs, conns):
         st_, got = _recv(pc, p, 'ready')
         if st_ != 'msg':
             return _rt_problem(st_, got, method, 'start')
+    # forced interleaving: the parent holds the object's lock, reads, lets
+    # child 0 attempt one locked increment, writes read+1 and only then
+    # releases.  With a lock that excludes the child, the child's increment
+    # comes after the parent's write (total 2); a child that gets through
+    # while the parent holds the lock has its update overwritten (total 1).
+    # The grace period only gives a broken lock time to show; it cannot
+    # cause a false alarm.
+    i0 = scripts[0][0]
+    raw, lock = obj.get_obj(), obj.get_lock()
+    lock.acquire()
+    try:
+        before = _peek(raw, shape, is_array, i0)
+        conns[0].send('probe')
+        st_, got = _recv(conns[0], procs[0], 'probing')
+        if st_ != 'msg':
+            return _rt_problem(st_, got, method, 'forced interleaving')
+        early = conns[0].poll(case['grace_s'])
+        _poke(raw, shape, is_array, i0, before + 1)
+    finally:
+        lock.release()
+    st_, got = _recv(conns[0], procs[0], 'probed')
+    if st_ != 'msg':
+        return _rt_problem(st_, got, method, 'forced interleaving')
+    after = _peek(raw, shape, is_array, i0)
+    if after != before + 2:
+        return bad('C15/lost-update', 'forced interleaving on %s%s, lock '
+                   'variant %d, child holds it in way %d (raw body %d): the '
+                   'parent held the lock, read %r and wrote %r; the child made '
+                   'one locked increment %s the parent released; final %r, '
+                   'expected %r' % (
+                       tname, '[%d]' % length if is_array else '', lockmode,
+                       case['how'], raw_body, before, before + 1,
+                       'BEFORE' if early else 'after', after, before + 2))
     for pc in conns:
         pc.send(case['budget_s'])
     made = []
@@ -774,6 +848,7 @@ def _contend(case, ctx, procs, conns):
         if p.exitcode != 0:
             return bad('C15/child-failed', 'exit code %r' % (p.exitcode,))
     want = [0] * length
+    want[i0] = 2
     for s, n_made in zip(scripts, made):
         for k in range(n_made):
             want[s[k % len(s)]] += 1
@@ -822,26 +897,34 @@ def run(ctx):
     if not quick or ctx.shard % 2 == 0:
         methods = both if not quick else [both[(ctx.shard // 2) % 2]]
         ctx.explore('xstart', seeded(rand_hist_case, salt + '/x', methods),
-                    execute_hist, n=ctx.pick(1, 40), shrink_budget=40,
-                    time_cap=ctx.pick(8, 300))
+                    execute_hist, n=ctx.pick(1, 60), shrink_budget=40,
+                    reexecute_confirm=2, time_cap=ctx.pick(8, 170))
     ctx.explore('contend',
                 seeded(rand_contend_case, salt + '/c', ['fork'],
-                       ctx.pick(1000, 2000), ctx.pick(4, 60)),
-                execute_contend, n=ctx.pick(1, 30), shrink_budget=0,
-                time_cap=ctx.pick(8, 300))
+                       ctx.pick(800, 2000), ctx.pick(3, 60)),
+                execute_contend, n=ctx.pick(1, 60), shrink_budget=0,
+                reexecute_confirm=2, time_cap=ctx.pick(8, 170))
     if not quick or ctx.shard % 4 == 1:
         methods = both if not quick else [both[(ctx.shard // 4) % 2]]
         ctx.explore('contend',
                     seeded(rand_contend_case, salt + '/cx', methods,
-                           ctx.pick(1000, 2000), ctx.pick(4, 60)),
-                    execute_contend, n=ctx.pick(1, 6), shrink_budget=0,
-                    time_cap=ctx.pick(8, 200))
-    left = max(6.0, 30.0 - (time.time() - t0)) if quick else 500
-    # half of the histories come from the seeded builder (rich from the very
-    # first example, different on every shard), half from the structured
-    # Hypothesis strategy (starts minimal, grows, revisits boundary values)
-    ctx.explore('hist',
-                st.one_of(seeded(rand_hist_case, salt + '/h', ['fork']),
-                          hist_cases(['fork'])), execute_hist,
-                n=ctx.pick(150, 2500), shrink_budget=ctx.pick(150, 300),
+                           ctx.pick(800, 2000), ctx.pick(3, 60),
+                           ctx.pick(3, 8)),
+                    execute_contend, n=ctx.pick(1, 12), shrink_budget=0,
+                    reexecute_confirm=2, time_cap=ctx.pick(8, 110))
+    left = max(8.0, 30.0 - (time.time() - t0)) if quick else 300
+    # The structured Hypothesis strategy (starts minimal, grows, revisits
+    # boundary values) gets a modest number of cases: ctx.explore keeps
+    # drawing its remaining examples after a time cap or a violation, and
+    # drawing a history costs ~20 ms.  The bulk comes from the seeded builder
+    # (rich from the very first example, different on every shard, ~free to
+    # draw).
+    t1 = time.time()
+    ctx.explore('hist', hist_cases(['fork']), execute_hist,
+                n=ctx.pick(25, 800), shrink_budget=ctx.pick(60, 300),
+                reexecute_confirm=2, time_cap=0.3 * left)
+    left = max(5.0, left - (time.time() - t1))
+    ctx.explore('hist', seeded(rand_hist_case, salt + '/h', ['fork']),
+                execute_hist, n=ctx.pick(150, 6000),
+                shrink_budget=ctx.pick(60, 300), reexecute_confirm=2,
                 time_cap=left)
